@@ -197,6 +197,29 @@ theorem cl_execs (cs : List Call) : ∀ (a : Api), P a.s → P (cs.foldl (fun a 
   | nil => intro a hp; exact hp
   | cons c cs ih => intro a hp; exact ih _ (cl_exec hc a c hp)
 
+theorem cl_itemGot (s : State) (th : Thread) (w : Nat) (evs : List Event) (hp : P s) : P (itemGot s th w evs).1 := by
+  unfold itemGot
+  simp only []
+  split
+  · exact hp
+  · exact cl_stamp hc s _ hp
+
+theorem cl_spollRun : ∀ (fuel : Nat) (s : State) (th : Thread) (evs : List Event), P s → P (spollRun s th evs fuel).1 := by
+  intro fuel
+  induction fuel with
+  | zero => intro s th evs hp; exact hp
+  | succ fuel ih =>
+    intro s th evs hp
+    unfold spollRun
+    repeat' split
+    all_goals (try simp only [])
+    all_goals repeat' split
+    all_goals first
+      | exact hp
+      | exact cl_itemGot hc _ _ _ _ (cl_acquire hc s _ hp)
+      | exact ih _ _ _ (cl_acquire hc s _ hp)
+      | exact cl_acquire hc s _ hp
+
 theorem cl_advance (t : Nat) : ∀ (fuel : Nat) (s : State) (th : Thread) (evs : List Event),
     P s → P (advance s t th evs fuel).1 := by
   intro fuel
@@ -206,12 +229,16 @@ theorem cl_advance (t : Nat) : ∀ (fuel : Nat) (s : State) (th : Thread) (evs :
     intro s th evs hp
     unfold advance
     repeat' split
+    all_goals (try simp only [])
+    all_goals repeat' split
     all_goals first
       | exact hp
       | exact cl_stamp hc s _ hp
       | exact ih _ _ _ hp
       | exact ih _ _ _ (cl_gop hc s _ _ hp)
       | exact ih _ _ _ (cl_acquire hc s _ hp)
+      | exact ih _ _ _ (cl_spollRun hc _ s _ _ hp)
+      | exact cl_spollRun hc _ s _ _ hp
 
 theorem cl_stepThread (s : State) (t : Nat) (th : Thread) (hp : P s) : P (stepThread s t th).1 := by
   have cl_gotGuard : ∀ s' th' slot evs, P s' → P (gotGuard s' t th' slot evs).1 :=
@@ -256,6 +283,13 @@ theorem cl_stepThread (s : State) (t : Nat) (th : Thread) (hp : P s) : P (stepTh
     | exact cl_advance hc t _ _ _ _ (cl_release hc s _ hp)
     | exact cl_advance hc t _ _ _ _ (cl_count hc s hp)
     | exact cl_advance hc t _ _ _ _ (cl_keys hc s hp)
+    | exact cl_advance hc t _ _ _ _ (hc s _ hp)
+    | exact cl_advance hc t _ _ _ _ (cl_spollRun hc _ _ _ _ (cl_release hc s _ hp))
+    | exact cl_spollRun hc _ _ _ _ (cl_release hc s _ hp)
+    | exact cl_advance hc t _ _ _ _ (cl_itemGot hc _ _ _ _ (cl_enqueue hc s _ hp))
+    | exact cl_itemGot hc _ _ _ _ (cl_enqueue hc s _ hp)
+    | exact cl_advance hc t _ _ _ _ (cl_spollRun hc _ _ _ _ (cl_enqueue hc s _ hp))
+    | exact cl_spollRun hc _ _ _ _ (cl_enqueue hc s _ hp)
 
 theorem cl_schedStep (sc : Sched) (t : Nat) (hp : P sc.s) : P (sc.step t).1.s := by
   unfold Sched.step
